@@ -1087,13 +1087,15 @@ class Translator:
         if name == "type" and len(args) == 1:
             # type(x)(...) rebuilds a container of the same kind
             if isinstance(a0, PySet):
-                return PyFunc(lambda it=(): PySet(it))
+                return PyFunc(lambda it=(): PySet(it), name="type:set")
             if isinstance(a0, dict):
-                return PyFunc(lambda it=(), **kw: dict(it, **kw) if not isinstance(it, dict) else dict(it))
+                return PyFunc(lambda it=(), **kw: dict(it, **kw) if not isinstance(it, dict) else dict(it), name="type:dict")
             if isinstance(a0, list):
-                return PyFunc(lambda it=(): list(it))
+                return PyFunc(lambda it=(): list(it), name="type:list")
             if isinstance(a0, tuple):
-                return PyFunc(lambda it=(): tuple(it))
+                return PyFunc(lambda it=(): tuple(it), name="type:tuple")
+            if isinstance(a0, str):
+                return PyFunc(lambda it="": str(it), name="type:str")
             raise Unmodelled("type() of a symbolic value")
         if name == "str" and len(args) == 1:
             if isinstance(a0, str):
@@ -1625,6 +1627,12 @@ class Translator:
             if a is None or b is None:
                 r = a is None and b is None
             return r if isinstance(op, ast.Is) else not r
+        if isinstance(op, (ast.Eq, ast.NotEq)):
+            # type(x) == dict / list / ...: the result of type() against the builtin name
+            for x_, y_ in ((a, b), (b, a)):
+                if isinstance(x_, PyFunc) and str(getattr(x_, "name", "")).startswith("type:") and isinstance(y_, Opaque) and y_.name.startswith("builtin."):
+                    r_ = x_.name[5:] == y_.name[8:]
+                    return r_ if isinstance(op, ast.Eq) else not r_
         if isinstance(a, (DType, Opaque)) or isinstance(b, (DType, Opaque)):
             raise Unmodelled("comparison of dtypes / opaque objects")
         if isinstance(a, bool) or isinstance(b, bool):
